@@ -15,6 +15,15 @@ pub mod sha1 {
         ensures str_bytes(s) == Seq::new(s@.len(), |i: int| s@[i] as u8)
     { }
 
+    #[verifier::external_type_specification]
+    #[verifier::external_body]
+    pub struct ExUtf8Error(core::str::Utf8Error);
+
+    /// Trusted (std documentation): every byte string whose bytes are all < 0x80 is valid UTF-8, and the
+    /// resulting `str` has exactly those bytes.
+    pub assume_specification<'a>[ core::str::from_utf8 ](v: &'a [u8]) -> (r: Result<&'a str, core::str::Utf8Error>)
+        ensures (forall|i: int| 0 <= i < v@.len() ==> v@[i] < 128) ==> (r matches Ok(s) && str_bytes(s) == v@);
+
     /// Trusted: SHA-1 digests are 20 bytes long.
     #[verifier::external_body]
     pub proof fn axiom_sha1_len(m: Seq<u8>)
